@@ -34,7 +34,7 @@ RULE = (
 )
 ASSUMPTIONS = [
     "skeletons are trees written parent->child with <= 4 node types, <= 2 peaks per node type (<= 3 for single-edge score matrices); larger inputs are outside the bound",
-    "'arbitrary PAF tensors' are 8 structured 8x8 fields (zero, constant +-x, +-y, ideal field of the identity / crossed pairing, checkerboard of signs); scores reach match_candidates_sample / group_instances_sample directly from finite alphabets in stages 1-2",
+    "'arbitrary PAF tensors' are 8 structured 8x8 fields (zero, constant +-x, +-y, ideal field of the identity / crossed pairing, checkerboard of signs) and 4 of them again on non-square 6x10 / 10x6 grids (peak positions then lie beyond the shorter axis); scores reach match_candidates_sample / group_instances_sample directly from finite alphabets in stages 1-2",
     "'maximise the total line score among one-to-one assignments' is read as: among complete one-to-one assignments (min(n_src,n_dst) pairs) that avoid NaN-scored pairs; when every complete assignment contains a NaN-scored pair only the structural clauses are required (one-to-one, valid indices, no NaN-scored pair, reported score = candidate score)",
     "line scores returned by PAFScorer.predict are taken as given in stage 3 (the line integral itself is not part of C08)",
     "parent-before-child edge order is C17: the real PAFScorer.sorted_edge_inds is passed to group_instances_sample",
@@ -724,7 +724,7 @@ def work_s2b(part, item):
 # stage 3: PAFScorer.predict end to end
 
 POS = [(3.0, 3.0), (11.0, 3.0), (3.0, 11.0), (12.5, 11.5), (19.0, -3.0)]  # last one lies outside the 16x16 image
-FIELDS = ("zero", "+x", "-x", "+y", "-y", "ideal_id", "ideal_cross", "checker")
+FIELDS = ("zero", "+x", "-x", "+y", "-y", "ideal_id", "ideal_cross", "checker", "+x@6x10", "ideal_id@6x10", "checker@10x6", "-y@10x6")
 PAF_H = PAF_W = 8
 STRIDE = 2
 S3_NPTS = (1, 3, 10)
@@ -746,6 +746,10 @@ def node_choices(pos_ids, kmax):
 
 def make_field(kind, edges, cfg):
     """(H, W, 2*n_edges) float32 PAF for one sample.  cfg: per node a tuple of position ids."""
+    PAF_H, PAF_W = globals()["PAF_H"], globals()["PAF_W"]
+    if "@" in kind:  # "<field>@<H>x<W>": the same field on a non-square PAF grid (positions beyond the shorter axis exist)
+        kind, hw = kind.split("@")
+        PAF_H, PAF_W = (int(v) for v in hw.split("x"))
     F = np.zeros((PAF_H, PAF_W, 2 * len(edges)), dtype=np.float32)
     if kind == "zero":
         return F
@@ -901,7 +905,7 @@ def work_s3(part, item):
             elif lay == "pair_next":
                 batch, fields = [cfg, cfgs[(idx + 1) % N]], [field, field]
             else:
-                batch, fields = [empty, cfg], ["zero", field]
+                batch, fields = [empty, cfg], ["zero" + (("@" + field.split("@")[1]) if "@" in field else ""), field]
             part.transition()
             res = s3_run_batch(n, edges, batch, fields, npts, melr, mls, mip, cache)
             mk = lambda b=batch, f=fields: s3_case(n, edges, b, f, npts, melr, mls, mip)
